@@ -86,7 +86,7 @@ def main():
                                    design_ref='DESIGN.md section 5, ' + pid),
                 level_note='Decides the structural clauses only; NOT decided: ' + undecided + '. Trusted: Python/pandas/dateutil axioms A1-A5 of DESIGN.md section 4; '
                            'callee resolution by imports/self/super/type(self) and by method name; unknown third-party callees assumed not to mutate arguments.',
-                technique='static analysis: ' + tech))
+                technique='static analysis: ' + tech + '; symbolic path summaries, guard tables by truth table, closed set of exits against the reference snapshot (EXITS), DEF-USE integrity; all evaluated on the program normalised by behaviour-preserving rewrites (else-elimination, helper inlining, def-use webs, reference-guided reshaping)'))
         else:
             na.append(dict(property_id=pid, reason='static check not built yet in this tree (planned: %s)' % tech))
     m = dict(version=1, setup_cmd='true',
@@ -96,10 +96,11 @@ def main():
              engines=[dict(name='sa', path='sa/', serves_properties=[c['property_id'] for c in checks],
                            kind_free_text='repository-specific static analysis over the Python AST: resolver + call graph, structured path enumerator, propositional discharger, '
                                           'operand-purity abstract interpretation, gen/kill dataflow (taint, typestate, def-use), finite tables (dispatch chains, regex ASTs), '
-                                          'template matcher, interval/linear-form evaluator, mirror/sibling skeleton comparison')],
+                                          'template matcher, interval/linear-form evaluator, mirror/sibling skeleton comparison, symbolic path summaries, normaliser (sa/normal.py, sa/webs.py) with reference snapshot sa/reference.json')],
              checks=checks,
              notes='All checks are static: nothing under /repo is imported or executed. Exit 0 pass / 1 VIOLATION / 2 ANALYSIS-ERROR (checker cannot see its subject). '
-                   'thorough = quick + self-validation by seeded in-memory faults and benign twins.',
+                   'thorough = quick + self-validation by seeded in-memory faults and benign twins + exploration of generic single-edit mutants (reported in the evidence file only). '
+                   'sa/reference.json must be regenerated (tools/mkreference.py) whenever a fix: commit changes /repo.',
              not_applicable=na)
     with open(os.path.join(V, 'MANIFEST.json'), 'w') as fh:
         json.dump(m, fh, indent=1)
